@@ -47,7 +47,39 @@ Section NoPanic.
   Lemma hints_sub h' h : hsub h' h -> hints_ok U h = true -> hints_ok U h' = true.
   Proof. intros Hs H. exact (Hs _ H). Qed.
 
+  Lemma hints_cons e l : hints_ok U (TVec e :: l) = true -> ptrs_ok U e = true /\ hints_ok U l = true.
+  Proof. unfold hints_ok. cbn [forallb is_vec andb ptrs_ok]. intros H. apply andb_true_iff in H. exact H. Qed.
+
+  Lemma hints_nonvec t l : is_vec t = false -> hints_ok U (t :: l) = true -> False.
+  Proof. unfold hints_ok. cbn [forallb]. intros ->. discriminate. Qed.
+
+  Lemma fields_cons f l :
+    fields_ptrs_ok (f :: l) = true -> ptrs_ok U (f_ty f) = true /\ fields_ptrs_ok l = true.
+  Proof. unfold fields_ptrs_ok. cbn [forallb]. intros H. apply andb_true_iff in H. exact H. Qed.
+
+  Lemma flag_inv_next fi i parsed f l :
+    flag_here fi i = false -> flag_inv fi i parsed (f :: l) -> flag_inv fi (S i) parsed l.
+  Proof. unfold flag_here, flag_inv. destruct fi as [k|]; [|trivial]. cbn [length]. intros E [->|H]; [now left|right; lia]. Qed.
+
+  Lemma flag_inv_parsed fi i fds : flag_inv fi i true fds.
+  Proof. destruct fi; cbn [flag_inv]; auto. Qed.
+
+  Lemma flag_inv_nil k i : flag_here (Some k) i = false -> flag_inv (Some k) i false [] -> False.
+  Proof. unfold flag_here, flag_inv. cbn [length]. intros E [H|H]; [discriminate H|lia]. Qed.
+
   Hypothesis HU : np_universe U = true.
+
+  Lemma body_inv tid sd : get_struct U tid = Some sd ->
+    has_tagged (s_fields sd) && match s_flagidx sd with None => true | Some _ => false end = false /\
+    fields_ptrs_ok (s_fields sd) = true /\
+    flag_inv (if has_tagged (s_fields sd) then s_flagidx sd else None) 0 false (s_fields sd).
+  Proof.
+    intros E. pose proof (np_get _ _ HU E) as H. unfold np_struct in H. apply andb_true_iff in H as [H1 H2].
+    fold (fields_ptrs_ok (s_fields sd)) in H2. unfold flag_inv.
+    destruct (has_tagged (s_fields sd)); [|now repeat split].
+    destruct (s_flagidx sd) as [k|]; [|discriminate H1].
+    repeat split; auto. right. apply Nat.leb_le in H1. lia.
+  Qed.
 
   Lemma dec_body_np rec :
     rec_post rec ->
@@ -60,10 +92,102 @@ Section NoPanic.
     destruct j as [t|tid|fi i parsed fl fds|e n| |n].
     all: unfold one in H; cbv zeta in H.
     all: try destruct t.
-    all: repeat dstep H; try discriminate H; facts Hrec.
+    all: repeat dstep H; try discriminate H; facts Hrec; subst.
+    (* a result of the wrong shape contradicts the postcondition of the callee *)
     all: try (match goal with X : exists _, _ = _ |- _ => destruct X as [? X]; discriminate X end).
-    all: try match goal with E : _ _ _ = DPanic |- _ =>
-               apply (Hcall _ _ E); split; cbn [fst snd]; eauto using hints_sub end.
-    Show.
-  Admitted.
+    (* a hint that is not a slice type contradicts hints_ok *)
+    all: try (exfalso; eapply hints_nonvec; [|exact Hh]; reflexivity).
+    (* unpack the invariants *)
+    all: try (apply hints_cons in Hh; destruct Hh as [? ?]).
+    all: try (match type of Hj with _ /\ _ => destruct Hj as [Hf Hi] end).
+    all: try (match goal with Hf : fields_ptrs_ok (_ :: _) = true |- _ => apply fields_cons in Hf; destruct Hf as [? ?] end).
+    all: try (match goal with E : get_struct _ _ = Some _ |- _ =>
+                pose proof (body_inv _ _ E) as [? [? ?]] end).
+    (* a panic of the callee contradicts the induction hypothesis *)
+    all: try (match goal with E : _ _ _ = DPanic |- _ =>
+               apply (Hcall _ _ E); split; cbn [fst snd];
+               eauto using hints_sub, flag_inv_next, flag_inv_parsed end).
+    (* the explicit panic sites *)
+    - (* pointer to a struct without CRC *)
+      cbn [ptrs_ok] in Hj. rewrite E, E1 in Hj. discriminate Hj.
+    - (* tagged fields without FlagIndex *) congruence.
+    - (* flags word never reached *) eauto using flag_inv_nil.
+  Qed.
+
+  Theorem dec_no_panic_aux fuel : forall j s, job_ok j s -> dec U inflate fuel j s <> DPanic.
+  Proof.
+    induction fuel as [|f IH]; intros j s Hok; [discriminate|].
+    rewrite dec_S. apply dec_body_np; auto. apply dec_post.
+  Qed.
 End NoPanic.
+
+(* ================= the theorems ================= *)
+
+Theorem dec_no_panic : forall U inflate, np_universe U = true ->
+  forall fuel j s, job_ok U j s -> dec U inflate fuel j s <> DPanic.
+Proof. intros U inflate HU fuel j s. apply dec_no_panic_aux; assumption. Qed.
+
+(* tl.DecodeUnknownObject never panics, given slice-typed hints *)
+Theorem decode_unknown_no_panic : forall U inflate, np_universe U = true ->
+  forall h, hints_ok U h = true ->
+  forall fuel bs, decode_unknown U inflate fuel h bs <> DPanic.
+Proof.
+  intros U inflate HU h Hh fuel bs. unfold decode_unknown.
+  destruct (dec U inflate fuel JReg (h, bs)) as [[vs s']| | |] eqn:E; cbn [dbind]; try discriminate.
+  - apply dec_post in E as [[v ->] _]. discriminate.
+  - exfalso. revert E. apply dec_no_panic; [assumption|]. split; [exact Hh|exact I].
+Qed.
+
+(* tl.Decode(data, &T{}) never panics when T has a CRC *)
+Theorem decode_named_no_panic : forall U inflate, np_universe U = true ->
+  forall fuel tid bs,
+  (match get_struct U tid with Some sd => s_crc sd <> None | None => True end) ->
+  decode_named U inflate fuel tid bs <> DPanic.
+Proof.
+  intros U inflate HU fuel tid bs Hc. unfold decode_named.
+  destruct (dec U inflate fuel (JVal (TPtr tid)) ([], bs)) as [[vs s']| | |] eqn:E; cbn [dbind]; try discriminate.
+  - apply dec_post in E as [[v ->] _]. discriminate.
+  - exfalso. revert E. apply dec_no_panic; [assumption|]. split; [reflexivity|].
+    cbn [ptrs_ok]. destruct (get_struct U tid) as [sd|]; [|reflexivity].
+    destruct (s_crc sd); [reflexivity|congruence].
+Qed.
+
+(* ================= the hypotheses are satisfiable ================= *)
+
+Example ex_np_universe : np_universe exU = true.
+Proof. vm_compute. reflexivity. Qed.
+
+(* dec_no_panic: a job/state pair satisfying the invariant, and the run it talks about *)
+Example ex_dec_no_panic :
+  job_ok exU (JVal (TPtr 0)) ([TVec (TPtr 0)], ex_obj) /\
+  dec exU ex_inflate 20 (JVal (TPtr 0)) ([TVec (TPtr 0)], ex_obj)
+  = DOk ([VObj 0 [VInt 7; VEnum 200; VVec false []; VBool false]], ([TVec (TPtr 0)], [])).
+Proof. split; [split|]; vm_compute; reflexivity. Qed.
+
+(* decode_unknown_no_panic: slice hints, object / container / gzip inputs *)
+Example ex_decode_unknown :
+  hints_ok exU [TVec TI32] = true /\
+  decode_unknown exU ex_inflate 20 [TVec TI32] ex_obj
+    = DOk (VObj 0 [VInt 7; VEnum 200; VVec false []; VBool false]) /\
+  decode_unknown exU ex_inflate 20 [] ex_container = DOk (VContainer [(1, 2, [1; 2; 3; 4])]) /\
+  decode_unknown exU ex_inflate 20 [] ex_gzip
+    = DOk (VGzip (VObj 0 [VInt 7; VEnum 200; VVec false []; VBool false])) /\
+  decode_unknown exU ex_inflate 20 [TVec TI32] (le32 crc_vector ++ le32 1 ++ le32 5)
+    = DOk (VWrapped (VVec false [VInt 5])).
+Proof. repeat split; vm_compute; reflexivity. Qed.
+
+(* decode_named_no_panic: struct 0 has a CRC *)
+Example ex_decode_named :
+  (match get_struct exU 0 with Some sd => s_crc sd <> None | None => True end) /\
+  decode_named exU ex_inflate 20 0 ex_obj = DOk (VObj 0 [VInt 7; VEnum 200; VVec false []; VBool false]).
+Proof. split; [cbn; discriminate|vm_compute; reflexivity]. Qed.
+
+(* the conditions are necessary: a non-slice hint makes DecodeUnknownObject panic *)
+Example ex_bad_hint_panics :
+  hints_ok exU [TI32] = false /\
+  decode_unknown exU ex_inflate 20 [TI32] (le32 crc_vector ++ le32 0) = DPanic.
+Proof. split; vm_compute; reflexivity. Qed.
+
+Print Assumptions dec_no_panic.
+Print Assumptions decode_unknown_no_panic.
+Print Assumptions decode_named_no_panic.
